@@ -151,6 +151,10 @@ impl Run {
 
     /// record one case line (without the property prefix) and the implementation's answer
     pub fn case(&mut self, index: usize, op: &str, payload: &str, answer: &str, nontrivial: bool) {
+        // a case the model was never sized for (e.g. a changed implementation accepts a 60 000-character text it used
+        // to reject): do not feed megabytes to the driver; the marker makes the model answer `bad-op`, i.e. a mismatch
+        let oversized;
+        let payload = if payload.len() > 3_000_000 { oversized = format!("oversized={}", payload.len()); oversized.as_str() } else { payload };
         let line = format!("{} {} idx={} {}", self.prop, op, index, payload);
         if self.distinct.insert(fnv(&format!("{} {}", op, payload))) && nontrivial {
             self.nontrivial += 1;
